@@ -273,7 +273,7 @@ def emit_dbml(w: World, db: str) -> str:
     return "\n\n".join(out) + "\n"
 
 
-def realize_by_parse(env: Env, w: World, db: str) -> Optional[Dict[str, Any]]:
+def realize_by_parse(env: Env, w: World, db: str, renderers: Optional[Dict[str, Any]] = None) -> Optional[Dict[str, Any]]:
     """Parse the emitted document and map the parsed objects back to model
     handles by position (references by endpoints).  None = cannot map."""
     from pydbml import PyDBML
@@ -281,7 +281,7 @@ def realize_by_parse(env: Env, w: World, db: str) -> Optional[Dict[str, Any]]:
     m = w.m
     d = m[db]
     try:
-        pdb = PyDBML(text, allow_properties=d["allow_properties"])
+        pdb = PyDBML(text, allow_properties=d["allow_properties"], **(renderers or {}))
     except Exception:
         return None
     real: Dict[str, Any] = {db: pdb}
